@@ -5,8 +5,10 @@
    statements agree (reduction, no injectivity hypothesis).  Special soundness (proof_special_soundness): two accepted transcripts
    with the same commitments and different challenges determine e, r1, r3 and the hidden scalars, by explicit formulas, with
    Bbar = D r1 - Abar e, B = D r3 and (sk + e) r3 Abar = r1 B -- a signature on the disclosed + extracted messages.
-   Bit flips of the proof itself: correspondence + sweep. *)
-From ZK Require Import Laws BaseLemmas ModelLemmas SignProofs Codec Soundness UpdateProofs Separation Binding Extractor.
+   Response scalars are not malleable (proof_response_edit_reduces): a second accepted proof that differs from an accepted one only
+   in e^, only in r1^ or only in r3^ exhibits a collision of the challenge hash on two explicit different inputs.
+   Bit flips of the points and of the challenge field: correspondence + sweep. *)
+From ZK Require Import Laws BaseLemmas ModelLemmas SignProofs Codec Soundness UpdateProofs Separation Binding Extractor Malleability.
 
 Theorem C04_core_proof_verify_degenerate :
   forall (E : env) (LW : Laws E) pk p g header ph dm di api,
@@ -164,3 +166,57 @@ Check (C04_proof_special_soundness :
     dB = fmul (SO E) r3 (dl1 E LW (p_D E p)) /\
     fmul (SO E) (fadd (SO E) (dl2 E LW pk) e) (fmul (SO E) r3 (dl1 E LW (p_Abar E p))) = fmul (SO E) r1 dB).
 Print Assumptions C04_proof_special_soundness.
+
+(* same statement, same challenge field: same recomputed commitments or an explicit collision *)
+Theorem C04_proof_same_challenge_same_commitments :
+  forall (E : env) (LW : Laws E) pk p p' g header ph dm di api,
+  core_proof_verify E pk p g header ph dm di api = Ok tt ->
+  core_proof_verify E pk p' g header ph dm di api = Ok tt ->
+  p_chal E p = p_chal E p' -> length (p_m_cap E p) = length (p_m_cap E p') ->
+  (len (option_default [] ph) <= usize_max)%N ->
+  (N.of_nat (length (p_m_cap E p) + length di) <= usize_max)%N ->
+  exists ir ir',
+    proof_verify_init E pk p g header dm di api = Ok ir /\ proof_verify_init E pk p' g header dm di api = Ok ir' /\
+    ((i_T1 E ir = i_T1 E ir' /\ i_T2 E ir = i_T2 E ir') \/
+     Collision (fun x => f_of_okm (SO E) (expand E x (api ++ c_h2s (cs E)) 48))
+               (challenge_octets E ir di dm ph) (challenge_octets E ir' di dm ph)).
+Proof. exact proof_same_challenge_same_commitments. Qed.
+Check (C04_proof_same_challenge_same_commitments :
+  forall (E : env) (LW : Laws E) pk p p' g header ph dm di api,
+  core_proof_verify E pk p g header ph dm di api = Ok tt ->
+  core_proof_verify E pk p' g header ph dm di api = Ok tt ->
+  p_chal E p = p_chal E p' -> length (p_m_cap E p) = length (p_m_cap E p') ->
+  (len (option_default [] ph) <= usize_max)%N ->
+  (N.of_nat (length (p_m_cap E p) + length di) <= usize_max)%N ->
+  exists ir ir',
+    proof_verify_init E pk p g header dm di api = Ok ir /\ proof_verify_init E pk p' g header dm di api = Ok ir' /\
+    ((i_T1 E ir = i_T1 E ir' /\ i_T2 E ir = i_T2 E ir') \/
+     Collision (fun x => f_of_okm (SO E) (expand E x (api ++ c_h2s (cs E)) 48))
+               (challenge_octets E ir di dm ph) (challenge_octets E ir' di dm ph))).
+Print Assumptions C04_proof_same_challenge_same_commitments.
+
+(* an edit of one response scalar of an accepted proof is accepted only with a collision of the challenge hash *)
+Theorem C04_proof_response_edit_reduces :
+  forall (E : env) (LW : Laws E) pk p p' g header ph dm di api,
+  core_proof_verify E pk p g header ph dm di api = Ok tt ->
+  core_proof_verify E pk p' g header ph dm di api = Ok tt ->
+  only_one_response_differs E p p' ->
+  (len (option_default [] ph) <= usize_max)%N ->
+  (N.of_nat (length (p_m_cap E p) + length di) <= usize_max)%N ->
+  exists ir ir',
+    proof_verify_init E pk p g header dm di api = Ok ir /\ proof_verify_init E pk p' g header dm di api = Ok ir' /\
+    Collision (fun x => f_of_okm (SO E) (expand E x (api ++ c_h2s (cs E)) 48))
+              (challenge_octets E ir di dm ph) (challenge_octets E ir' di dm ph).
+Proof. exact proof_response_edit_reduces. Qed.
+Check (C04_proof_response_edit_reduces :
+  forall (E : env) (LW : Laws E) pk p p' g header ph dm di api,
+  core_proof_verify E pk p g header ph dm di api = Ok tt ->
+  core_proof_verify E pk p' g header ph dm di api = Ok tt ->
+  only_one_response_differs E p p' ->
+  (len (option_default [] ph) <= usize_max)%N ->
+  (N.of_nat (length (p_m_cap E p) + length di) <= usize_max)%N ->
+  exists ir ir',
+    proof_verify_init E pk p g header dm di api = Ok ir /\ proof_verify_init E pk p' g header dm di api = Ok ir' /\
+    Collision (fun x => f_of_okm (SO E) (expand E x (api ++ c_h2s (cs E)) 48))
+              (challenge_octets E ir di dm ph) (challenge_octets E ir' di dm ph)).
+Print Assumptions C04_proof_response_edit_reduces.
